@@ -162,13 +162,16 @@ def gen_net(rng, idx, profile):
         h, w, c = rng.randint(1, 4), rng.randint(1, 4), rng.choice([16, 32, 48])
     else:
         h, w, c = rng.randint(1, 12), rng.randint(1, 12), rng.choice([1, 2, 3, 4, 8, 16, 16, 17, 24])
+    if profile in ("weights", "conv") and rng.random() < 0.15:
+        h = w = 1            # convolutions on a 1x1 map (a 1x1 kernel is rewritten to a fully connected operator)
     x = b.input([1, h, w, c])
     b.net.desc.append(f"profile={profile} dtype={dtype} in={[1, h, w, c]}")
     menu = {
         "conv": ["conv", "conv", "conv1x1", "dwconv", "maxpool", "avgpool_valid", "relu", "fc_end", "tconv"],
         "elementwise": ["add_self", "add_skip", "mul_const", "sub_const", "add_const", "minmax", "relu", "lrelu", "quantize",
-                        "conv1x1", "mul_skip"],
-        "memory": ["concat", "split_concat", "slice", "pad_conv", "reshape_back", "conv1x1", "relu", "maxpool", "pad", "squeeze_expand"],
+                        "conv1x1", "mul_skip", "hswish", "add_const"],
+        "memory": ["concat", "split_concat", "slice", "pad_conv", "reshape_back", "conv1x1", "relu", "maxpool", "pad", "squeeze_expand",
+                   "transpose"],
         "cascade": ["conv", "conv", "dwconv", "maxpool", "avgpool_valid", "conv1x1", "add_skip", "relu"],
         "weights": ["conv", "conv1x1", "conv1x1", "fc_end", "dwconv"],
         "cpu": ["conv_cpu", "conv", "add_self", "relu", "maxpool", "conv1x1", "conv_cpu", "concat"],
@@ -220,9 +223,11 @@ def gen_net(rng, idx, profile):
             shp = rng.choice([[1, 1, 1, cc], [1, 1, 1, 1], list(xt.shape), [1, 1, ww, cc]])
             lo, hi = netgen._qrange(xt.dtype)
             r = np.random.RandomState(rng.getrandbits(32))
-            c2 = b.const(shp, xt.dtype, r.randint(lo, hi + 1, int(np.prod(shp))), [netgen.rand_scale(rng)],
-                         [netgen.rand_zp(rng, xt.dtype)])
-            args = (cur, c2) if rng.random() < 0.6 else (c2, cur)
+            first = rng.random() < 0.4
+            # a constant / broadcast FIRST operand with the smaller scale: operands are swapped and the scaled one changes sides
+            c_scale = float(np.float32(xt.scales[0] * rng.uniform(0.05, 0.9))) if first and rng.random() < 0.6 else netgen.rand_scale(rng)
+            c2 = b.const(shp, xt.dtype, r.randint(lo, hi + 1, int(np.prod(shp))), [c_scale], [netgen.rand_zp(rng, xt.dtype)])
+            args = (c2, cur) if first else (cur, c2)
             new = b.binary({"mul_const": "MUL", "sub_const": "SUB", "add_const": "ADD"}[kind], *args)
         elif kind == "minmax":
             other = b.pool(cur, "MAX_POOL_2D", (3, 3), (1, 1), "SAME") if rng.random() < 0.5 else cur
@@ -235,6 +240,13 @@ def gen_net(rng, idx, profile):
                 _same_quant(b, new, cur)
         elif kind == "quantize":
             new = b.quantize(cur)
+        elif kind == "hswish" and xt.dtype != "int16":
+            new = b.unary("HARD_SWISH", cur)
+        elif kind == "transpose" and xt.dtype != "int16":
+            perm = [0, 2, 1, 3] if not (hh == 1 or ww == 1) else rng.choice([[0, 2, 1, 3], [0, 1, 3, 2] if hh == 1 else [0, 3, 2, 1]])
+            pt = b.const([4], "int32", perm, name=b.fresh("perm"))
+            new = b.fm([xt.shape[p_] for p_ in perm], xt.dtype, scale=xt.scales[0], zp=xt.zps[0])
+            b.net.ops.append(netgen.Op("TRANSPOSE", [cur, pt], [new], ("TransposeOptions", {})))
         elif kind == "concat":
             other = rng.choice([b.unary("RELU", cur), b.pool(cur, "MAX_POOL_2D", (3, 3), (1, 1), "SAME"), cur])
             axis = rng.choice([3, 3, 1, 2])
@@ -282,14 +294,36 @@ def gen_net(rng, idx, profile):
             avoid = {"fc_end", "reshape_back", "squeeze_expand"}
     if profile == "approx" and len(b.t(cur).shape) == 4:
         # the approximated operator comes last so that its error is not amplified
-        which = rng.choice(["avgpool_same", "avgpool_same", "logistic", "tanh", "resize", "resize"])
+        which = rng.choice(["avgpool_same", "avgpool_same", "logistic", "tanh", "resize", "resize", "mean", "mean", "exp", "softmax", "argmax"])
         hh, ww, cc = b.t(cur).shape[1:]
+        if which in ("exp", "argmax") and b.t(cur).dtype == "int16":
+            which = "mean"
+        if which == "argmax" and cc > 127:
+            which = "mean"
         if which == "resize" and (hh * ww > 36 or b.t(cur).dtype == "int16"):
             which = "avgpool_same"
         b.net.desc.append(which)
         if which == "avgpool_same":
             k = rng.choice([(2, 2), (3, 3), (3, 3), (5, 5)])
             new = b.pool(cur, "AVERAGE_POOL_2D", k, rng.choice([(1, 1), (2, 2)]), "SAME")
+        elif which == "mean":
+            ct = b.t(cur)
+            axes, keep = rng.choice([([1, 2], True), ([1, 2], True), ([1, 2], False), ([1], True), ([2], True)])
+            ax = b.const([len(axes)], "int32", axes, name=b.fresh("axes"))
+            oshape = [d for i, d in enumerate([1, 1 if 1 in axes else hh, 1 if 2 in axes else ww, cc]) if keep or i not in axes]
+            same = rng.random() < 0.3
+            new = b.fm(oshape, ct.dtype, scale=ct.scales[0] if same else None, zp=ct.zps[0] if same else None)
+            b.net.ops.append(netgen.Op("MEAN", [cur, ax], [new], ("ReducerOptions", dict(KeepDims=keep))))
+        elif which == "exp":
+            new = b.fm(list(b.t(cur).shape), b.t(cur).dtype)
+            b.net.ops.append(netgen.Op("EXP", [cur], [new], None))
+        elif which == "softmax":
+            new = add_softmax(b, rng, cur)
+        elif which == "argmax":
+            ax = b.const([], "int32", [3], name=b.fresh("axis"))
+            ot = rng.choice(["int32", "int64"])
+            new = b.net.add(netgen.T(b.fresh("t"), [1, hh, ww], ot))
+            b.net.ops.append(netgen.Op("ARG_MAX", [cur, ax], [new], ("ArgMaxOptions", dict(OutputType={"int32": 2, "int64": 4}[ot]))))
         elif which == "resize":
             kind_r = rng.choice(["RESIZE_BILINEAR", "RESIZE_NEAREST_NEIGHBOR"])
             al, hp = rng.choice([(False, False), (True, False), (False, True)])
@@ -316,6 +350,13 @@ def corpus_net(rng, name):
     ones, a deterministic witness for the open one (known_lrelu16_reshape)"""
     import netgen
 
+    if name == "known_mean_unit_axes":
+        b = make_builder(rng, name, "int8")
+        x = b.input([1, 1, 1, 12], scale=0.0146, zp=-17)
+        ax = b.const([2], "int32", [1, 2], name=b.fresh("axes"))
+        z = b.fm([1, 1, 1, 12], "int8", scale=0.0199, zp=-20)
+        b.net.ops.append(netgen.Op("MEAN", [x, ax], [z], ("ReducerOptions", dict(KeepDims=True))))
+        return b.finish([z])
     b = make_builder(rng, name, "int16" if name in ("known_fc_int16", "known_lrelu16_relu6", "known_lrelu16_reshape") else "int8")
     if name == "known_fc_int16":
         x = b.input([1, 2, 1, 16], scale=0.0011566292960196733, zp=0)
@@ -433,6 +474,9 @@ def _worker(job):
         data = netgen.serialize(net)
         out.update(desc=net.describe(), opts=opts, src_ops=[o.kind for o in net.ops], dtype=net.tensors[net.inputs[0]].dtype,
                    src_inputs=list(net.inputs),
+                   src_tinfo=[(list(t.shape), t.dtype, [float(x) for x in (t.scales or [])], [int(z) for z in (t.zps or [])],
+                               [int(v) for v in np.asarray(t.data).reshape(-1)] if t.data is not None and t.dtype == "int32" and np.asarray(t.data).size <= 8 else None)
+                              for t in net.tensors],
                    src_graph=[(o.kind, list(o.inputs), list(o.outputs), int((o.opts[1] if o.opts else {}).get("FusedActivationFunction", 0)),
                                int((o.opts[1] if o.opts else {}).get("Padding", -1)),
                                max(int((o.opts[1] if o.opts else {}).get("StrideW", 1)), int((o.opts[1] if o.opts else {}).get("StrideH", 1))))
@@ -486,9 +530,25 @@ def run_lean(lines, jobs=16):
 MEMORY_ONLY = ("RESHAPE", "SQUEEZE", "EXPAND_DIMS")
 
 
+def mean_over_unit_axes(o):
+    """the source network has a MEAN whose reduced axes all have extent 1 and whose input and output quantisation differ"""
+    ti = o.get("src_tinfo") or []
+    for kind, ins, outs, faf, pad, stride in o.get("src_graph") or []:
+        if kind != "MEAN" or len(ins) < 2:
+            continue
+        shape, _dt, sc_i, zp_i, _ = ti[ins[0]]
+        axes = ti[ins[1]][4]
+        _s, _d, sc_o, zp_o, _ = ti[outs[0]]
+        if axes is not None and all(shape[a] == 1 for a in axes) and (sc_i, zp_i) != (sc_o, zp_o):
+            return True
+    return False
+
+
 def classify_failure(o, ans):
-    """stable key of the open known finding (see known_findings.txt), or None. Only the structure of the source network
+    """stable key of an open known finding (see known_findings.txt), or None. Only the structure of the source network
     is consulted; the verdict itself is Lean's."""
+    if ans.endswith("verdict=fail") and mean_over_unit_axes(o):
+        return "mean-over-unit-axes-drops-requantisation"
     if not (ans.endswith("verdict=fail") or "read_outside_region" in ans) or o.get("dtype") != "int16":
         return None
     g = o.get("src_graph") or []
@@ -521,7 +581,8 @@ def main():
     k_inputs = 5 if ck.thorough else 4
     jobs = [(0, 0, "known_" + nm, k_inputs) for nm in ("slice_relu", "fused_act_relu", "pad_conv_reshape", "quantize_relu", "reshape_relu",
                                                               "slice_window", "lut_reshape", "cascade_stale_row", "pad_avgpool_act", "slice_of_slice", "slice_strided_conv", "fc_int16",
-                                                              "slice_strided_pool", "pad_concat", "pad_strided_dw", "lrelu16_relu6", "lrelu16_reshape")]
+                                                              "slice_strided_pool", "pad_concat", "pad_strided_dw", "lrelu16_relu6", "lrelu16_reshape",
+                                                              "mean_unit_axes")]
     jobs += [(ck.seed, i, PROFILES[i % len(PROFILES)], k_inputs) for i in range(n)]
     ctx = multiprocessing.get_context("fork")
     with ProcessPoolExecutor(min(16, os.cpu_count() or 4), mp_context=ctx) as ex:
